@@ -131,6 +131,15 @@ pub fn setup(r: &mut Rng, thorough: bool, scheme: SchemeType) -> Option<Setup> {
 
 pub fn run(out: &mut Out, thorough: bool, seed: u64, _extra: &[String]) {
     let mut r = Rng::new(seed);
+    // correction-factor balancing on its own: prime and composite t, all kinds of factor pairs
+    for _ in 0..(if thorough { 2000 } else { 150 }) {
+        let t = match r.below(4) { 0 => *r.pick(&[2u64, 3, 5, 17, 257, 65537, 786433, 1032193]), 1 => 1u64 << r.range(1, 30), 2 => r.range(2, 1 << 20), _ => { let b = r.range(2, 60) as u32; r.bits(b).max(2) } };
+        let pickf = |r: &mut Rng| -> u64 { match r.below(5) { 0 => 1, 1 => t - 1, 2 => (t / 2).max(1), _ => 1 + r.below(t - 1) } };
+        let (f1, f2) = (pickf(&mut r), pickf(&mut r));
+        if gcd(f1, t) != 1 || gcd(f2, t) != 1 { continue; }   // correction factors are units mod t
+        let tm = Modulus::new(t);
+        out.case(&format!("balance {} {} {}", f1, f2, t), "balance", || { let (f, e1, e2) = Evaluator::verif_balance_correction_factors(f1, f2, &tm); format!("{},{},{}", f, e1, e2) });
+    }
     let programs = if thorough { 400 } else { 24 };
     let steps = if thorough { 14 } else { 10 };
     for pi in 0..programs {
